@@ -105,12 +105,12 @@ func evalC04(p prog.Program) Outcome {
 func genC04() *rapid.Generator[prog.Program] {
 	change := prog.Gen(prog.GenOpts{
 		MinClients: 2, MaxClients: pick(4, 6), MaxSteps: pick(30, 60),
-		Kinds: []string{"obj", "counter", "text", "arr", "pres"}, SchedOps: []string{"pushonly", "pushonly", "attach", "detach", "losesync", "losesync"},
+		Kinds: []string{"obj", "counter", "text", "arr", "pres"}, SchedOps: []string{"pushonly", "pushonly", "attach", "detach", "losesync", "losesync", "syncedit"},
 		SyncWeight: 8, OfflineBias: true,
 	})
 	snap := prog.Gen(prog.GenOpts{
 		MinClients: 2, MaxClients: pick(4, 6), MaxSteps: pick(30, 60),
-		Kinds: []string{"obj", "counter", "text", "arr", "pres"}, SchedOps: []string{"pushonly", "pushonly", "attach", "detach", "losesync", "losesync"},
+		Kinds: []string{"obj", "counter", "text", "arr", "pres"}, SchedOps: []string{"pushonly", "pushonly", "attach", "detach", "losesync", "losesync", "syncedit"},
 		SyncWeight: 8, OfflineBias: true, Snapshots: true,
 	})
 	return rapid.Custom(func(t *rapid.T) prog.Program {
@@ -152,7 +152,7 @@ func evalC06(p prog.Program) Outcome {
 }
 
 func genC06() *rapid.Generator[prog.Program] {
-	sched := []string{"pushonly", "attach", "detach", "detach", "reattach", "reattach"}
+	sched := []string{"pushonly", "attach", "detach", "detach", "reattach", "reattach", "syncedit", "losesync"}
 	change := prog.Gen(prog.GenOpts{
 		MinClients: 2, MaxClients: pick(4, 5), MaxSteps: pick(30, 60), MaxTail: pick(6, 12),
 		Kinds: prog.AllEditKinds, SchedOps: sched, SyncWeight: 8, OfflineBias: true,
